@@ -112,7 +112,8 @@ func H_c06(p []int) {
 	if len(p) > 4 && p[4] > 0 {
 		c12History(p[4]-1, "h")
 	}
-	r := catchRedact(func() redact.RedactableString { return redact.Sprintf("a‹ "+d+" b", v) })
+	// a second, unsafe operand follows: the wrapper's override must end with its operand
+	r := catchRedact(func() redact.RedactableString { return redact.Sprintf("a‹ "+d+" b %v", v, "T") })
 	if r.panicked {
 		return
 	}
@@ -125,23 +126,29 @@ func H_c06(p []int) {
 	}
 	de := delEnv(out)
 	if kind < 100 {
-		f := catchFmt(func() string { return fmt.Sprintf("a‹ "+d+" b", mkValue(kind, s, 42)) })
+		f := catchFmt(func() string { return fmt.Sprintf("a‹ "+d+" b %v", mkValue(kind, s, 42), "T") })
 		if f.panicked {
 			return
 		}
 		vAssert(bytesEq(strip(out), esc([]byte(f.out))), "C06/characters-as-fmt")
-		f0 := catchFmt(func() string { return fmt.Sprintf("a‹ "+d+" b", blankLeaf{}) })
+		f0 := catchFmt(func() string { return fmt.Sprintf("a‹ "+d+" b %v", blankLeaf{}, blankS("")) })
 		if outerUnsafe {
 			vAssert(bytesEq(de, esc([]byte(f0.out))), "C06/unsafe-envelopes-all")
 		} else {
-			vAssert(bytesEq(out, esc([]byte(f.out))), "C06/safe-envelopes-none")
+			f1 := catchFmt(func() string { return fmt.Sprintf("a‹ "+d+" b %v", mkValue(kind, s, 42), blankS("")) })
+			vAssert(bytesEq(de, esc([]byte(f1.out))), "C06/safe-envelopes-none")
+			vAssert(hasSuffixBytes(out, []byte(" b ‹T›")), "C06/next-operand-still-unsafe")
 		}
 	} else if outerUnsafe {
 		// redact-specific x under Unsafe: nothing of x outside envelopes
-		f0 := catchFmt(func() string { return fmt.Sprintf("a‹ "+d+" b", blankLeaf{}) })
+		f0 := catchFmt(func() string { return fmt.Sprintf("a‹ "+d+" b %v", blankLeaf{}, blankS("")) })
 		vAssert(bytesEq(de, esc([]byte(f0.out))), "C06/unsafe-envelopes-all")
 	}
 	vCover(n > 0 && outerUnsafe, "symbolic-under-unsafe")
+}
+
+func hasSuffixBytes(a, suf []byte) bool {
+	return len(a) >= len(suf) && bytesEq(a[len(a)-len(suf):], suf)
 }
 
 // blankLeaf renders as nothing under the standard fmt.
